@@ -8,6 +8,7 @@ package main
 
 import (
 	"fmt"
+	"math"
 	"math/rand"
 	"regexp"
 	"strconv"
@@ -756,22 +757,23 @@ func (p *prog) emitRaise(w *fileBuf, li int) {
 	case 11:
 		rat("KIdent", mark(Pick(r, []string{"¤zz()", "¤zz(1)", "new ¤zz"})))
 	case 12:
-		at := mark(Pick(r, []string{"new ¤Array(-1)", "new ¤Array(1.5)", "new ¤Array(4294967296)"}))
+		at := mark(Pick(r, []string{"new ¤Array(-1)", "new ¤Array(1.5)", "new ¤Array(4294967296)", "new ¤Array(" + p.badArg(5) + ")", "new ¤Array(" + p.badArg(5) + ")"}))
 		call("KIdent", at)
 		noat(at)
 	case 13:
-		noat(mark(Pick(r, []string{"¤ARR.length = -1", "¤ARR.length = 1.5", "¤ARR.length = 4294967296"})))
+		noat(mark(Pick(r, []string{"¤ARR.length = -1", "¤ARR.length = 1.5", "¤ARR.length = 4294967296", "¤ARR.length = " + p.badArg(6), "¤ARR.length = " + p.badArg(6)})))
 	case 14:
-		call("KDot", mark(Pick(r, []string{"¤NUM.toString(1)", "¤NUM.toString(37)", "¤NUM.toString(0)", "¤NUM.toString(-5)", "¤NUM.toString(100)"})))
+		call("KDot", mark(Pick(r, []string{"¤NUM.toString(1)", "¤NUM.toString(37)", "¤NUM.toString(0)", "¤NUM.toString(-5)", "¤NUM.toString(100)",
+			"¤NUM.toString(" + p.badArg(1) + ")", "¤NUM.toString(" + p.badArg(1) + ")", "¤NUM.toString(" + p.badArg(1) + ")", "¤NUM.toString(" + p.badArg(1) + ")"})))
 		p.nativeTop("toString")
 	case 15:
-		call("KDot", mark(Pick(r, []string{"¤NUM.toFixed(-1)", "¤NUM.toFixed(21)", "¤NUM.toFixed(101)"})))
+		call("KDot", mark(Pick(r, []string{"¤NUM.toFixed(-1)", "¤NUM.toFixed(21)", "¤NUM.toFixed(101)", "¤NUM.toFixed(" + p.badArg(2) + ")", "¤NUM.toFixed(" + p.badArg(2) + ")", "¤NUM.toFixed(" + p.badArg(2) + ")"})))
 		p.nativeTop("toFixed")
 	case 16:
-		call("KDot", mark(Pick(r, []string{"¤NUM.toExponential(-1)", "¤NUM.toExponential(-7)"})))
+		call("KDot", mark(Pick(r, []string{"¤NUM.toExponential(-1)", "¤NUM.toExponential(-7)", "¤NUM.toExponential(" + p.badArg(3) + ")", "¤NUM.toExponential(" + p.badArg(3) + ")"})))
 		p.nativeTop("toExponential")
 	case 17:
-		call("KDot", mark(Pick(r, []string{"¤NUM.toPrecision(0)", "¤NUM.toPrecision(-3)"})))
+		call("KDot", mark(Pick(r, []string{"¤NUM.toPrecision(0)", "¤NUM.toPrecision(-3)", "¤NUM.toPrecision(" + p.badArg(4) + ")", "¤NUM.toPrecision(" + p.badArg(4) + ")"})))
 		p.nativeTop("toPrecision")
 	case 18:
 		at := mark("¤eval(" + jsQuote(Pick(r, []string{"var x = ;", "a b", "1 +* 2", "if (", "}", "x = 1;\n y = @", "for (;;", "f(,)"})) + ")")
@@ -1249,6 +1251,239 @@ func errOf(r runResult) error {
 	return fmt.Errorf("%s", r.errText)
 }
 
+
+// ---------------------------------------------------------------------------
+// argument-dependent raises: toString(radix), toFixed/toExponential/toPrecision(digits),
+// new Array(len), array.length = len over boundary values of the argument
+
+type argFn struct {
+	id     int
+	lo, hi float64 // legal range of ToInteger(argument) (for arrays: of the value itself)
+	open   bool    // ES5 lets an implementation extend the range above hi: not generated
+	expr   string  // %s = the argument
+}
+
+var argFns = []argFn{
+	{1, 2, 36, false, "(255).toString(%s)"},
+	{2, 0, 20, false, "(1.5).toFixed(%s)"},
+	{3, 0, 20, true, "(1.5).toExponential(%s)"},
+	{4, 1, 21, true, "(1.5).toPrecision(%s)"},
+	{5, 0, 4294967295, false, "new Array(%s)"},
+	{6, 0, 4294967295, false, "ARR.length = %s"},
+}
+
+// a finite value of the pool: legal range ends and their neighbours, fractions around them, residues of
+// the legal range modulo 2^31, 2^32, 2^53, 2^63, 2^64 (a check on a wrapped or narrowed value lets these
+// through), their negatives, very large and very small magnitudes
+func argValue(r *rand.Rand, f argFn) float64 {
+	legal := f.lo + float64(r.Intn(int(math.Min(f.hi-f.lo, 40))+1))
+	if f.hi > 100 && r.Intn(2) == 0 {
+		legal = f.hi - float64(r.Intn(40))
+	}
+	var v float64
+	switch r.Intn(12) {
+	case 0:
+		v = Pick(r, []float64{f.lo - 1, f.lo, f.lo + 1, f.hi - 1, f.hi, f.hi + 1})
+	case 1:
+		v = Pick(r, []float64{f.lo - 1, f.lo, f.hi, f.hi + 1}) + Pick(r, []float64{0.5, -0.5, 0.25, 0.999, -0.001, 1e-9})
+	case 2:
+		v = legal
+	case 3, 4: // legal residue modulo 2^32
+		v = legal + Pick(r, []float64{1, 2, 3, -1, -2, 1 << 10, 1 << 20, -(1 << 20)})*4294967296
+	case 5:
+		v = legal + Pick(r, []float64{2147483648, -2147483648, 65536, 256, -256, -65536})
+	case 6: // 2^53, 2^63, 2^64 and neighbours (even residues stay exact at 2^53)
+		base := Pick(r, []float64{9007199254740992, 9223372036854775808, 18446744073709551616, 4503599627370496})
+		v = base + 2*math.Floor(legal/2)
+		if r.Intn(3) == 0 {
+			v = math.Nextafter(base, Pick(r, []float64{0, math.Inf(1)}))
+		}
+	case 7:
+		v = Pick(r, []float64{2147483647, 2147483648, 2147483649, 4294967295, 4294967296, 4294967297, 4294967294.5, 4294967295.5})
+	case 8:
+		v = Pick(r, []float64{1e21, 1e300, math.MaxFloat64, 5e-324, 1e-7, 0.1, 0.9, 1.5, 2.5})
+	case 9:
+		v = Pick(r, []float64{0, math.Copysign(0, -1), 1, -1, 10, 16, 21, 22, 37, 100, 255})
+	default:
+		v = legal + Pick(r, []float64{0, 0.5, 0.75}) + Pick(r, []float64{4294967296, 8589934592, -4294967296})
+	}
+	if r.Intn(4) == 0 {
+		v = -v
+	}
+	return v
+}
+
+// harness-side oracle, used only to choose arguments (the judge is Spec.spec_throws)
+func argThrows(f argFn, v float64, undef bool) (throws, decided bool) {
+	if undef {
+		return f.id == 6, true
+	}
+	if f.id >= 5 {
+		return !(v == math.Trunc(v) && v >= 0 && v <= 4294967295), true
+	}
+	i := math.Trunc(v)
+	if math.IsNaN(v) {
+		i = 0
+	}
+	if i < f.lo {
+		return true, true
+	}
+	if i > f.hi {
+		return true, !f.open
+	}
+	return false, true
+}
+
+func coqArg(v float64) string {
+	switch {
+	case math.IsNaN(v):
+		return "ANaN"
+	case math.IsInf(v, 1):
+		return "(AInf false)"
+	case math.IsInf(v, -1):
+		return "(AInf true)"
+	case v == 0:
+		return "(AFin 0 0)"
+	}
+	frac, exp := math.Frexp(v)
+	m := int64(frac * 9007199254740992) // exact: frac has at most 53 significant bits
+	return fmt.Sprintf("(AFin %s %s)", Cz(m), Cz(int64(exp-53)))
+}
+
+// JS text of an argument whose ToNumber is v, and whether it is of type Number
+// callFree: no call or new expression in the text (it would be a call site of the frame)
+func argText(r *rand.Rand, v float64, numberOnly, callFree bool) string {
+	lit := JSNum(v)
+	if v == math.Trunc(v) && math.Abs(v) < 1e15 && !(v == 0 && math.Signbit(v)) {
+		lit = strconv.FormatFloat(v, 'f', -1, 64)
+		if v < 0 {
+			lit = "(" + lit + ")"
+		}
+	}
+	forms := []string{lit, lit, "(" + lit + " + 0)"}
+	if !callFree {
+		forms = append(forms, "Number(\""+strings.Trim(lit, "()")+"\")")
+	}
+	if v == math.Trunc(v) && math.Abs(v) >= 4294967296 && math.Abs(v) < 9007199254740992 {
+		k := math.Floor(v / 4294967296)
+		forms = append(forms, fmt.Sprintf("(%s * 4294967296 + %s)", strconv.FormatFloat(k, 'f', -1, 64), strconv.FormatFloat(v-k*4294967296, 'f', -1, 64)))
+		if !callFree {
+			forms = append(forms, fmt.Sprintf("(Math.pow(2, 32) * %s + %s)", strconv.FormatFloat(k, 'f', -1, 64), strconv.FormatFloat(v-k*4294967296, 'f', -1, 64)))
+		}
+	}
+	if !numberOnly && !(v == 0 && math.Signbit(v)) {
+		str := strings.Trim(lit, "()")
+		forms = append(forms, "\""+str+"\"", "\" "+str+" \"", "({valueOf: function () { return "+lit+" }})",
+			"({toString: function () { return \""+str+"\" }})", "["+lit+"]")
+		if !callFree {
+			forms = append(forms, "new Number("+lit+")")
+		}
+	}
+	return Pick(r, forms)
+}
+
+func genArg(env *Env, pinned int) {
+	r := env.Rng
+	f := Pick(r, argFns)
+	var v float64
+	var arg, coq string
+	for {
+		undef := false
+		switch k := r.Intn(24); {
+		case pinned == 1:
+			f, v = argFns[0], 4294967312
+			arg, coq = "4294967312", coqArg(v)
+		case k == 0:
+			undef = true
+			arg, coq = Pick(r, []string{"undefined", "", "void 0"}), "AUndef"
+			if f.id >= 5 && arg == "" {
+				arg = "undefined"
+			}
+		case k == 1:
+			v = math.NaN()
+			arg, coq = Pick(r, []string{"NaN", "\"abc\"", "({})", "0 / 0"}), "ANaN"
+			if f.id == 5 {
+				arg = Pick(r, []string{"NaN", "0 / 0"})
+			}
+		case k == 2:
+			v = math.Inf(1 - 2*r.Intn(2))
+			arg, coq = JSNum(v), coqArg(v)
+			if r.Intn(2) == 0 && f.id != 5 {
+				arg = "\"" + strings.Trim(arg, "()") + "\""
+			}
+		case k == 3 && f.id != 5:
+			v = float64(r.Intn(2))
+			arg, coq = Pick(r, [][]string{{"false", "null", "\"\"", "[]"}, {"true", "[1]"}}[int(v)]), coqArg(v)
+		default:
+			v = argValue(r, f)
+			arg, coq = argText(r, v, f.id == 5, false), coqArg(v)
+		}
+		if _, decided := argThrows(f, v, undef); decided {
+			break
+		}
+	}
+	expr := fmt.Sprintf(f.expr, arg)
+	// caught: in-script facts; uncaught: what Run returns
+	vm := otto.New()
+	if o := RunJS(vm, prelude); o.Err != nil || o.Panic != nil {
+		panic("prelude")
+	}
+	o1 := RunJS(vm, "__r = \"none\"; try { "+expr+" } catch (e) { __r = __facts(e) }")
+	facts := "!"
+	if fv, err := vm.Get("__r"); err == nil && fv.IsString() {
+		facts = fv.String()
+	}
+	vm2 := otto.New()
+	_ = RunJS(vm2, prelude)
+	o2 := RunJS(vm2, expr)
+	obs := []int64{0, 0, 0, 0, 0}
+	switch {
+	case o1.Panic != nil || o2.Panic != nil || o1.Err != nil:
+		obs = []int64{9, 9, 9, 9, 9}
+	case facts == "none" && o2.Err == nil:
+		// nothing thrown, both ways
+	case facts == "none" || o2.Err == nil:
+		obs = []int64{8, 8, 8, 8, 8} // the two runs disagree
+	default:
+		obs[0] = 1
+		obs[1] = ErrClass(o2)
+		parts := strings.Split(facts, "\u0001")
+		if len(parts) == 5 {
+			fs := strings.Split(parts[0], ",")
+			if len(fs) == 6 && fs[0] == "3" && fs[1] == "1" && fs[2] == "1" && fs[3] == "1" && fs[4] == "1" {
+				obs[2] = 1
+			}
+			if len(fs) == 6 && fs[5] == "1" {
+				obs[3] = 1
+			}
+			want := parts[2] + ": " + parts[3]
+			if obs[3] == 0 {
+				want = parts[2]
+			}
+			if _, ok := o2.Err.(*otto.Error); ok && parts[1] == want && o2.Err.Error() == want {
+				obs[4] = 1
+			}
+		}
+	}
+	errText := ""
+	if o2.Err != nil {
+		errText = o2.Err.Error()
+	}
+	env.Add(fmt.Sprintf("CArg %d %s %s", f.id, coq, Czlist(obs)),
+		fmt.Sprintf("arg %s -> Error()=%q in-script=%q", expr, errText, facts), fmt.Sprintf("arg/%d", f.id), true)
+}
+
+// an argument for which the built-in must throw, for the program kinds 12-17
+func (p *prog) badArg(fid int) string {
+	f := argFns[fid-1]
+	for {
+		v := argValue(p.r, f)
+		if t, decided := argThrows(f, v, false); t && decided {
+			return argText(p.r, v, fid == 5, true)
+		}
+	}
+}
+
 // ---------------------------------------------------------------------------
 // file.Position on arbitrary texts
 
@@ -1586,20 +1821,20 @@ func runC19(env *Env) {
 	landed = detectLanded()
 	env.Extra["repairs_already_in_tree"] = landed
 	env.Import = "Otto.C19.Corr"
-	env.Rule = "programs: an error-raising construct of one of 51 kinds placed by a position-tracking generator inside 0-14 nested frames (declared/anonymous/named function expressions, methods, constructors, call/apply/bind, callbacks of 11 built-ins, IIFEs, direct and indirect eval, Function()), 0-3 earlier statements per frame (calls of every callee form, completed evals, caught errors), up to two named files plus eval texts, trace limits -3..15 correlated with the depth, optionally through Otto.Copy; plus file.Position on random texts/offsets, parser positions of an offending token, uncaught text after name/message mutations, FileSet.Position; non-trivial = distinct case with at least one call frame (traces) or a line break (positions); all text/fileset/facts cases"
+	env.Rule = "programs: an error-raising construct of one of 51 kinds placed by a position-tracking generator inside 0-14 nested frames (declared/anonymous/named function expressions, methods, constructors, call/apply/bind, callbacks of 11 built-ins, IIFEs, direct and indirect eval, Function()), 0-3 earlier statements per frame (calls of every callee form, completed evals, caught errors), up to two named files plus eval texts, trace limits -3..15 correlated with the depth, optionally through Otto.Copy; plus the argument-dependent raises (toString radix, toFixed/toExponential/toPrecision digits, new Array(len), length = len) over boundary arguments (range ends, fractions, residues of the legal range modulo 2^31/2^32/2^53/2^63/2^64, negatives, NaN, infinities, numeric strings, objects with valueOf/toString) in both directions; file.Position on random texts/offsets, parser positions of an offending token, uncaught text after name/message mutations, FileSet.Position; non-trivial = distinct case with at least one call frame (traces) or a line break (positions); all text/fileset/facts cases"
 	pins := []func(){}
 	for k := 1; k <= 9; k++ {
 		k := k
 		pins = append(pins, func() { genProgram(env, k) })
 	}
-	pins = append(pins, func() { genPos(env, 1) }, func() { genPos(env, 2) }, func() { genSyntax(env, 1) },
+	pins = append(pins, func() { genArg(env, 1) }, func() { genPos(env, 1) }, func() { genPos(env, 2) }, func() { genSyntax(env, 1) },
 		func() { genText(env, 1) }, func() { genFileSet(env, 1) })
 	for _, f := range pins {
 		f()
 	}
 	r := env.Rng
 	for env.Count() < env.N {
-		switch k := r.Intn(20); {
+		switch k := r.Intn(24); {
 		case k < 11:
 			genProgram(env, 0)
 		case k < 14:
@@ -1608,8 +1843,10 @@ func runC19(env *Env) {
 			genSyntax(env, 0)
 		case k < 19:
 			genText(env, 0)
-		default:
+		case k < 20:
 			genFileSet(env, 0)
+		default:
+			genArg(env, 0)
 		}
 	}
 }
